@@ -24,8 +24,8 @@ TABLE = {
           'Covers every fault sequence because faults are those edges; not that the backend persisted.',
           'trusts the storage backend and CPython exception semantics', '3/C03'),
   'C04': ('CFG must-pass-through (static)',
-          'Static must-pass: after every edge on which the stop is observed the writer passes a drain before it '
-          'returns; the drain loop only exits on an empty cache; the shutdown trigger is registered and zeroes the '
+          'Static must-pass: after every read of reactor.running (wherever the stop can be observed) the writer passes a drain '
+          'before it returns (infeasible paths pruned on constants); the drain loop only exits on an empty cache; the shutdown trigger is registered and zeroes the '
           'lag on every path. Covers every stop moment relative to the loop; not Twisted shutdown ordering.',
           'trusts Twisted to join the thread pool and run before-shutdown triggers', '3/C04'),
   'C05': ('yield-pair dedup discipline on the CFG + dataflow on yielded tuples + effect purity (static)',
@@ -38,7 +38,7 @@ TABLE = {
           '(node, replica index, hash type); replica-key templates and hash parameters equal the published ones. '
           'One known finding (collision bump makes positions history dependent).',
           'hash values themselves are not computed', '3/C06'),
-  'C07': ('who-may-mutate ownership + CFG dominance/must-pass (static)',
+  'C07': ('who-may-mutate ownership + CFG dominance/must-pass + batch-builder shape analysis (static)',
           'Static: queue touched only through FIFO operations in their owners, popped batch is sent whole, enqueue '
           'bounded by the hard limit, drops counted, re-injection covers the whole queue before clear, stop only '
           'after empty; sends go through the live connection.',
@@ -74,7 +74,7 @@ TABLE = {
           'Static: every filesystem sink is reached only through encode() + join(data_dir, ...); no dot segment or '
           'leading separator survives encode(); nothing rewrites the encoded path afterwards.',
           'Ceres path mapping is external', '3/C14'),
-  'C15': ('symbolic encoder/decoder term agreement (static)',
+  'C15': ('symbolic encoder/decoder term agreement + batch-builder shape analysis (static)',
           'Static: encoder and decoder agree on field positions; float spec is fixed-point with precision >= 10 on '
           'every branch; one independent frame per batch; batches popped in order.',
           'numeric round-trip of float() is not decided', '3/C15'),
@@ -82,7 +82,7 @@ TABLE = {
           'Static: first match then stop unless continue; only configured destinations; rules in file order with '
           'per-section state; every aggregate of a metric is hashed and all its replicas are returned.',
           'regex semantics are trusted', '3/C16'),
-  'C17': ('atomicity (one critical section) + sibling generator shape + tuple-layout agreement (static)',
+  'C17': ('atomicity (one critical section) + generator pass-shape analysis + tuple-layout agreement (static)',
           'Static: a drain chooses and removes in one critical section; no empty entry can exist; generator '
           'strategies take full snapshots and drain them completely; lag filter reads the min; bucket bookkeeping '
           'written only by store/choose.',
@@ -91,7 +91,7 @@ TABLE = {
           'Static: tag order is erased by sorting before formatting; both parsers set the name last and validate '
           'every tag; processors parse unconditionally inside a try whose handler keeps the raw name.',
           'idempotence as a string function is not decided', '3/C18'),
-  'C19': ('CFG first-match + load-order dataflow + constant folding of unit table (static)',
+  'C19': ('path-sensitive first-match / argument-routing terms + load-order dataflow + constant folding of unit table (static)',
           'Static: schema loops break on first match; sections appended in file order from a per-read list; create() '
           'arguments routed from the right loops; unit multipliers folded; duration divided by scaled precision.',
           'regex semantics and int parsing are trusted', '3/C19'),
@@ -134,13 +134,16 @@ def main():
       add_only=True,
     ),
     engines=[dict(name='sa', path='sa/', serves_properties=[c['property_id'] for c in checks],
-                  kind_free_text='repository-specific static analyser: ast program model, type-based call '
-                                 'resolution, CFG with exception edges, reachability-after-removal queries, '
-                                 'reaching definitions, exception-effect/taint analysis, symbolic shape evaluator')],
+                  kind_free_text='repository-specific static analyser: ast program model, whole-program normalisation '
+                                 '(helpers, generators, flags, dispatch tables and template methods spliced into their callers), '
+                                 'type-based call resolution, CFG with exception edges, reachability-after-removal queries, '
+                                 'path-sensitive propagation of shape terms, reaching definitions / value numbers, '
+                                 'exception-effect/taint analysis, lockset model')],
     checks=checks,
     notes='All checks are static analysis of /repo\'s current working tree (python3 -m sa). Exit 0 holds / 1 '
           'VIOLATION / 2 ANALYSIS-ERROR. Genuine defects found were repaired in /repo as "fix:" commits and are '
-          'listed in known_findings.txt (fixed: lines); one known finding (C06) remains.',
+          'listed in known_findings.txt (fixed: lines); one known finding (C06) remains. The thorough tier re-runs each check on '
+          'scratch copies with every stored seeded change (must be reported) and every stored refactoring (must stay silent).',
     not_applicable=na,
   )
   with open(os.path.join(VERIF, 'MANIFEST.json'), 'w') as f:
